@@ -813,6 +813,9 @@ WBXML_DECLARE(WBXMLError) wbxml_encoder_encode_raw_elt_start(WBXMLEncoder *encod
     /* Nothing of an element start that could not be encoded stays in the output */
     if ((ret = parse_element(encoder, node, has_content)) != WBXML_OK)
         encoder_rewind(encoder, prev_len, prev_tag, prev_tag_page, prev_attr_page, encoder->indent, encoder->in_content);
+    /* An element without content is complete: what is encoded next is not its content */
+    else if ((encoder->output_type == WBXML_ENCODER_OUTPUT_XML) ? (node->children == NULL) : !has_content)
+        encoder->current_tag = NULL;
     
     return ret;
 }
